@@ -27,6 +27,10 @@ type Tape struct {
 	NoRec   bool
 	Limit   [NStreams]int // replay: cells at or beyond Limit read as 0 (0 = no limit)
 	Counted [NStreams]uint64
+	// Frozen > 0: choices return 0 and are neither drawn nor recorded. Used
+	// around diagnostic formatting, which may run instrumented code (String
+	// methods ranging over maps) and must not perturb the run.
+	Frozen int
 }
 
 func splitmix(x uint64) uint64 {
@@ -90,7 +94,7 @@ func (t *Tape) read(st int, n int) int {
 
 // Choose returns a value in [0,n), uniform in generation mode.
 func (t *Tape) Choose(st int, n int) int {
-	if n <= 1 {
+	if n <= 1 || t.Frozen > 0 {
 		return 0
 	}
 	if t.Replay {
@@ -101,7 +105,7 @@ func (t *Tape) Choose(st int, n int) int {
 
 // ChooseBias returns 0 with probability num/den, else uniform in [1,n).
 func (t *Tape) ChooseBias(st int, n int, num, den int) int {
-	if n <= 1 {
+	if n <= 1 || t.Frozen > 0 {
 		return 0
 	}
 	if t.Replay {
@@ -115,7 +119,7 @@ func (t *Tape) ChooseBias(st int, n int, num, den int) int {
 
 // Chance is true with probability num/den (false is the dull value).
 func (t *Tape) Chance(st int, num, den int) bool {
-	if num <= 0 {
+	if num <= 0 || t.Frozen > 0 {
 		return false
 	}
 	if t.Replay {
